@@ -69,6 +69,13 @@ func c12(c *Ctx) {
 	dsl := c.P.Func("ircserver.(*IRCServer).deleteSessionLocked")
 	classes := map[string]int{}
 	nSites := 0
+	nT3 := 0
+	defer func() {
+		r.Ok("C12.T3", "ircserver", "client-reachable code never reads the incoming message's prefix", "-", itoa(nT3)+" reads of the incoming message inspected (Command, Params, Trailing only)")
+		if nT3 < 40 {
+			r.Break("C12.T3: only %d reads of the incoming message found in client-reachable code (expected > 40)", nT3)
+		}
+	}()
 	for _, fi := range c.P.FuncsIn("ircserver") {
 		if fi.Body() == nil || fi.Obj != nil && f.sendHelpers[fi.Obj] || fi == f.send {
 			continue
@@ -85,6 +92,11 @@ func c12(c *Ctx) {
 		if clientReach && mParam != nil {
 			ast.Inspect(fi.Body(), func(n ast.Node) bool {
 				se, ok := n.(*ast.SelectorExpr)
+				if ok {
+					if id, isID := ast.Unparen(se.X).(*ast.Ident); isID && astx.Obj(info, id) == mParam {
+						nT3++
+					}
+				}
 				if !ok {
 					return true
 				}
